@@ -86,34 +86,40 @@ Section HybScale.
   Qed.
 
   (* ------------------------------------------------------------ Benham *)
-  Lemma benham_loop_scale fx fuel votes0 : forall cur,
-    benham_loop fx fuel (scale_z k votes0) (scale_z k cur) = benham_loop fx fuel votes0 cur.
+  Lemma benham_cw_scale sc cur : benham_cw sc (scale_z k cur) = benham_cw sc cur.
+  Proof. unfold benham_cw. rewrite arc_scale, pairwise_scale, (condorcet_winner_scale k Hk). reflexivity. Qed.
+
+  Lemma benham_loop_scale fx sc fuel votes0 : forall cur,
+    benham_loop fx sc fuel (scale_z k votes0) (scale_z k cur) = benham_loop fx sc fuel votes0 cur.
   Proof.
-    induction fuel as [|f IH]; intros cur; cbn [benham_loop]; rewrite pairwise_scale, (condorcet_winner_scale k Hk);
-      destruct (condorcet_winner (pairwise cur)) as [|c r]; try reflexivity.
+    induction fuel as [|f IH]; intros cur; cbn [benham_loop]; rewrite benham_cw_scale;
+      destruct (benham_cw sc cur) as [|c r]; try reflexivity.
     rewrite eliminate_one_scale. destruct (eliminate_one cur) as [remains|]; [|reflexivity].
     destruct remains as [|r1 [|r2 rest]]; try reflexivity.
     - destruct (fx && has_tie []); [reflexivity|]. rewrite subset_votes_scale. apply IH.
     - destruct (fx && has_tie (r1 :: r2 :: rest)); [reflexivity|]. rewrite subset_votes_scale. apply IH.
   Qed.
 
-  Theorem benham_scale fx votes : benham fx (scale_z k votes) = benham fx votes.
+  Theorem benham_scale fx sc votes : benham fx sc (scale_z k votes) = benham fx sc votes.
   Proof. unfold benham. rewrite arc_scale. apply benham_loop_scale. Qed.
 
   (* ------------------------------------------------------------ Tideman's alternative *)
-  Lemma tideman_tier_scale fx fuel : forall round, tideman_tier fx fuel (scale_z k round) = tideman_tier fx fuel round.
+  Lemma winner_set_scale sc round : winner_set sc (scale_z k round) = winner_set sc round.
+  Proof. unfold winner_set. rewrite pairwise_scale, (smith_schwartz_scale k Hk), arc_scale. reflexivity. Qed.
+
+  Lemma tideman_tier_scale fx sc fuel : forall round, tideman_tier fx sc fuel (scale_z k round) = tideman_tier fx sc fuel round.
   Proof.
     induction fuel as [|f IH]; intros round; destruct round as [|bw round]; try reflexivity.
     change (scale_z k (bw :: round)) with ((fst bw, (k * snd bw)%Z) :: scale_z k round).
     cbn [tideman_tier]. change ((fst bw, (k * snd bw)%Z) :: scale_z k round) with (scale_z k (bw :: round)).
-    set (rd := bw :: round). rewrite pairwise_scale, (smith_schwartz_scale k Hk).
+    set (rd := bw :: round). rewrite winner_set_scale.
     assert (Hgen : forall sset,
       match eliminate_one (subset_votes sset (scale_z k rd)) with
       | Some rem =>
           if fx && has_tie rem then inr H_nie
           else match rem with
                | [r] => inl r
-               | _ => tideman_tier fx f (subset_votes (plain rem) (subset_votes sset (scale_z k rd)))
+               | _ => tideman_tier fx sc f (subset_votes (plain rem) (subset_votes sset (scale_z k rd)))
                end
       | None => inr H_index
       end =
@@ -122,7 +128,7 @@ Section HybScale.
           if fx && has_tie rem then inr H_nie
           else match rem with
                | [r] => inl r
-               | _ => tideman_tier fx f (subset_votes (plain rem) (subset_votes sset rd))
+               | _ => tideman_tier fx sc f (subset_votes (plain rem) (subset_votes sset rd))
                end
       | None => inr H_index
       end).
@@ -130,11 +136,25 @@ Section HybScale.
       destruct (eliminate_one (subset_votes sset rd)) as [rem|]; [|reflexivity].
       destruct (fx && has_tie rem); [reflexivity|].
       destruct rem as [|r1 [|r2 rest]]; try reflexivity; rewrite subset_votes_scale; apply IH. }
-    destruct (smith_schwartz (pairwise rd) true) as [|w [|w2 rest]]; [apply Hgen|reflexivity|apply Hgen].
+    destruct (winner_set sc rd) as [|w [|w2 rest]]; [apply Hgen|reflexivity|apply Hgen].
   Qed.
 
-  Theorem tideman_alt_scale fx votes n : tideman_alt fx (scale_z k votes) n = tideman_alt fx votes n.
-  Proof. unfold tideman_alt. rewrite arc_scale, tideman_tier_scale. reflexivity. Qed.
+  Lemma tier_fuel_scale round : tier_fuel_of (scale_z k round) = tier_fuel_of round.
+  Proof. unfold tier_fuel_of. rewrite arc_scale. reflexivity. Qed.
+
+  Lemma tideman_loop_scale fx sc tr fuel : forall tier_votes elig n acc,
+    tideman_loop fx sc tr fuel (scale_z k tier_votes) elig n acc = tideman_loop fx sc tr fuel tier_votes elig n acc.
+  Proof.
+    induction fuel as [|f IH]; intros tier_votes elig n acc; cbn [tideman_loop]; [reflexivity|].
+    rewrite tier_fuel_scale, tideman_tier_scale.
+    destruct (tideman_tier fx sc (tier_fuel_of tier_votes) tier_votes) as [[w|t]|e]; try reflexivity.
+    destruct (cmem w elig); [|reflexivity].
+    destruct (Nat.eqb _ _ || _); [reflexivity|]. destruct tr; [|reflexivity].
+    rewrite subset_votes_scale. apply IH.
+  Qed.
+
+  Theorem tideman_alt_scale fx sc tr votes n : tideman_alt fx sc tr (scale_z k votes) n = tideman_alt fx sc tr votes n.
+  Proof. unfold tideman_alt. cbv zeta. rewrite arc_scale. apply tideman_loop_scale. Qed.
 
   (* ------------------------------------------------------------ Baldwin *)
   Notation drel := (lrel (K := C) qs).
